@@ -765,13 +765,18 @@ auto vyukov_hash_map<Key, Value, Policies...>::find(const key_type& key) -> iter
     }
   }
 
-  auto extension = bucket.head.load(std::memory_order_relaxed);
+  auto* prev = &bucket.head;
+  auto extension = prev->load(std::memory_order_relaxed);
   while (extension) {
     if (traits::template compare_key<false>(extension->key, extension->value, key, h, acc)) {
+      // position the iterator exactly like operator++ would: behind the items of the bucket array
+      result.index = item_count;
       result.extension = extension;
+      result.prev = prev;
       return result;
     }
-    extension = extension->next.load(std::memory_order_relaxed);
+    prev = &extension->next;
+    extension = prev->load(std::memory_order_relaxed);
   }
 
   return end();
